@@ -77,6 +77,11 @@ def run(chk):
     chk.call(r7_sibling_resolvers, chk, cls)
     chk.call(r8_membership, chk, cls)
     chk.call(r9_one_shot_arguments, chk)
+    # "adding hydrogens" is one of the edits: every hydrogen enters through add_atom (which gives it its coordinate row and charge) and is
+    # bonded afterwards - a bond to an atom that is not in the molecule yet adopts it without a row (C16.R2 under this property's name)
+    from . import c16
+
+    chk.borrow("C05.R10", c16.r2_pairing, chk, c16.placement_view(prog))
 
 
 def r9_one_shot_arguments(chk):
